@@ -1336,8 +1336,11 @@ pub fn run() {
     // is structural, so size costs nothing)
     let n_big = t.pick(300usize, 30_000usize);
     par_cases("large-circuits", n_big, move |r, i| {
-        let nq = *r.pick(&[7usize, 33, 65, 70, 129, 300]);
-        let depth = *r.pick(&[100usize, 260, 1030, 2500]);
+        let (nq, depth) = if r.chance(0.5) {
+            (*r.pick(&[7usize, 33, 65, 70, 129, 300]), *r.pick(&[100usize, 260, 1030, 2500]))
+        } else {
+            (r.log_uniform(3, 400), r.log_uniform(20, 3000))
+        };
         let mut p = CircParams::unitary(nq, depth, PhPool::Float);
         p.min_qubits = nq.max(3) - 2;
         p.pp = false;
